@@ -85,7 +85,7 @@ def gen_case(rng):
             'loud': rng.random() < 0.3, 'same_day': rng.random() < 0.3}
 
 
-def run_case(case, acc):
+def run_case(case, acc, report_prop='C09'):
     sesswl.hook()
     from qstrader.broker.simulated_broker import SimulatedBroker
     from qstrader.exchange.simulated_exchange import SimulatedExchange
@@ -165,6 +165,14 @@ def run_case(case, acc):
                                 'held %s) and no portfolio construction took place' % (
                                     i, st['universe'], {a: d['quantity'] for a, d in broker.get_portfolio_as_dict('P').items()}), {})
             rec = tr.pcm[-1]
+            # working out the orders does not change what the broker reports as held (read before anything is submitted
+            # or the clock moves on): the same assets and quantities as the portfolio's own report, no zero entries
+            rep = {a: d['quantity'] for a, d in broker.get_portfolio_as_dict('P').items()}
+            own = {a: d['quantity'] for a, d in broker.portfolios['P'].portfolio_to_dict().items()}
+            if qts is None and (rep != own or any(q == 0 for q in rep.values()) or rep != {a: q for a, q in rec['held'].items()}):
+                raise Violation(report_prop, 'holdings-report-after-rebalance', 'after portfolio construction at step %d (nothing submitted '
+                                'yet) broker.get_portfolio_as_dict reports %s; the portfolio holds %s' % (i, rep, own), {})
+            acc.count('%s:holdings_reports_after_portfolio_construction' % report_prop)
             sesswl.check_c09_record(rec, acc)
             acc.see('C09:alpha_key_modes', st['keys_mode'])
             if any(a in rec['held'] and a not in st['weights'] for a in rec['held']) and \
